@@ -1,7 +1,5 @@
 CONSTANT SGuardAfter = FALSE
-CONSTANT FullLen = 4
-CONSTANT OneLen = 5
-CONSTANT OneKinds = {1,2,5,6,7,8,9,10,14}
+CONSTANT Tier = "thorough"
 INIT Init
 NEXT Next
 INVARIANT Judge
